@@ -3,7 +3,10 @@
 package c02
 
 import (
+	"time"
+
 	"fmt"
+	"github.com/vulcand/oxy/v2/internal/holsterv4/clock"
 	"net/http"
 	"net/http/httptest"
 	"net/url"
@@ -53,10 +56,20 @@ func (r *race) markUpsertStart() { r.upsertStart = r.tick() }
 func (r *race) inspect(s string) { r.inspected[r.ninspected] = s; r.ninspected++ }
 
 func raceScenario(rebalancer, inspector bool, nreq, bound int) *sched.Scenario {
+	return raceScenarioM(rebalancer, inspector, false, nreq, bound)
+}
+
+// adjusting: the rebalancer's meters are scripted, ready and rate server a as failing, so that
+// every completing request makes the rebalancer re-weight the pool while administration runs.
+func raceScenarioM(rebalancer, inspector, adjusting bool, nreq, bound int) *sched.Scenario {
 	name := fmt.Sprintf("admin-race/rebalancer=%v/inspector=%v/requests=%d/bound=%d", rebalancer, inspector, nreq, bound)
+	if adjusting {
+		name += "/adjusting"
+	}
 	sc := &sched.Scenario{Name: name, Bound: bound, Info: map[string]any{"rebalancer": rebalancer, "inspector": inspector}}
 	ua, ub, uc := mustURL("http://a:80/x"), mustURL("http://b:80/x"), mustURL("http://c:80/x")
 	sc.New = func() *sched.Instance {
+		clock.VerifInstall(clock.Date(2012, 3, 4, 5, 6, 7, 0, clock.UTC), nil)
 		w := &race{}
 		cur := -1 // index of the request being served by the thread that runs (one request thread only)
 		h := http.HandlerFunc(func(rw http.ResponseWriter, r *http.Request) {
@@ -74,11 +87,25 @@ func raceScenario(rebalancer, inspector bool, nreq, bound int) *sched.Scenario {
 			RemoveServer(*url.URL) error
 		} = rr
 		if rebalancer {
-			rb, err := roundrobin.NewRebalancer(rr)
+			var opts []roundrobin.RebalancerOption
+			upserting := ""
+			if adjusting {
+				opts = append(opts, roundrobin.RebalancerBackoff(time.Second), roundrobin.RebalancerMeter(func() (roundrobin.Meter, error) {
+					m := &scriptMeter{ready: true}
+					if upserting == identity(ua) {
+						m.rating = 1
+					}
+					return m, nil
+				}))
+			}
+			rb, err := roundrobin.NewRebalancer(rr, opts...)
 			if err != nil {
 				panic(err)
 			}
 			front = rb
+			upserting = identity(ua)
+			front.UpsertServer(ua)
+			upserting = ""
 		}
 		front.UpsertServer(ua)
 		front.UpsertServer(ub)
@@ -164,11 +191,13 @@ func Scenarios(tier string) []*sched.Scenario {
 		return []*sched.Scenario{
 			raceScenario(false, false, 3, -1), raceScenario(false, true, 2, -1),
 			raceScenario(true, false, 2, 4), raceScenario(true, true, 2, 3),
+			raceScenarioM(true, false, true, 2, 3), raceScenarioM(true, true, true, 2, 2),
 		}
 	}
 	return []*sched.Scenario{
 		raceScenario(false, false, 2, -1), raceScenario(false, true, 2, -1),
 		raceScenario(true, false, 2, 3), raceScenario(true, true, 2, 2),
+		raceScenarioM(true, false, true, 2, 2),
 	}
 }
 
